@@ -135,6 +135,14 @@ pub proof fn lemma_hit_idx(t: int, p: Seq<usize>, name: ElementName, v: u32)
 { lemma_resolve_any(t, p); }
 '''
 
+MULT = r'''
+// "a single-occurrence element inside a sequence or choice"
+pub open spec fn mult_limited(t: int, p: Seq<usize>) -> bool {
+    (t_dt(container_of(t, p)).mode == ContentMode::Sequence || t_dt(container_of(t, p)).mode == ContentMode::Choice)
+    && (resolve(t, p) matches Some((d, _)) && t_el(d as int).multiplicity != ElementMultiplicity::Any)
+}
+'''
+
 R38 = [
     (r'ArxmlParserError::\w+ \{[^{}]*\}', lambda m: 'ArxmlParserError::VxOther(0)', 'R36'),
     (r'let (\([^()]*\)|\w+) =\s*((?:[^;{}]|\n)*?)\.ok_or_else\(\|\| \{\s*self\.error\((ArxmlParserError::VxOther\(0\))\)\s*\}\)\?;',
@@ -166,7 +174,7 @@ def make_unit(repo_dir):
     fns = [ff['error'], ff['optional_error'], ff['check_version'],
            FnSpec('find_element_in_spec_checked', F, impl=IMPL_P, ret='r', body_sub=R38, requires=[T],
                   ensures=['final(self).same_mode(old(self))',
-                           'old(self).strict ==> (r matches Ok(p) ==> find_post(elemtype.typ as int, name, %s, Some(p))) && final(self).warnings@ == old(self).warnings@' % V,
+                           'old(self).strict ==> (r matches Ok(p) ==> find_post(elemtype.typ as int, name, %s, Some(p)) && find_is(elemtype.typ as int, name, %s, Some(p))) && final(self).warnings@ == old(self).warnings@' % (V, V),
                            '!old(self).strict ==> (r matches Ok(p) ==> find_post(elemtype.typ as int, name, u32::MAX, Some(p)) && (hit(elemtype.typ as int, p.1@, name, %s) <==> final(self).warnings@ == old(self).warnings@))' % V],
                   proofs=[dict(at='body_start', text='proof { axiom_tables(); }\nlet ghost t = elemtype.typ as int; let ghost fv = self.fileversion as u32;'),
                           dict(before=r'^\s*let version_mask = ', text='proof { lemma_hit_idx(t, elem_idx@, name, u32::MAX); assert(!hit(t, elem_idx@, name, fv)); }'),
@@ -192,13 +200,7 @@ def make_unit(repo_dir):
                            'old(self).strict ==> final(self).warnings@ == old(self).warnings@',
                            '!old(self).strict ==> r is Ok'],
                   proofs=[dict(at='body_start', text='proof { axiom_tables(); lemma_resolve_any(elemtype.typ as int, elem_idx@); }')])]
-    spec += r'''
-// "a single-occurrence element inside a sequence or choice"
-pub open spec fn mult_limited(t: int, p: Seq<usize>) -> bool {
-    (t_dt(container_of(t, p)).mode == ContentMode::Sequence || t_dt(container_of(t, p)).mode == ContentMode::Choice)
-    && (resolve(t, p) matches Some((d, _)) && t_el(d as int).multiplicity != ElementMultiplicity::Any)
-}
-'''
+    spec += MULT
     u = Unit(name='elemcheck', prop='C08', spec=spec, fns=fns,
              wrap={IMPL_P: "impl<'a> ArxmlParser<'a>", lookups.IMPL_ET: 'impl ElementType', lookups.IMPL_GT: 'impl GroupType'},
              dropped=['error payloads: every `ArxmlParserError::Variant { .. }` literal is the opaque ArxmlParserError::VxOther(0) (rule R36); ArxmlParser has its real field list, element-graph types are opaque',
